@@ -196,6 +196,20 @@ ContractClauses(o, w) ==
     \cup (IF d \subseteq (c.req \cup c.opt) THEN {} ELSE {"P_C03_ContractNothingAdded"})
     \cup (IF \A x \in c.req : (Once(x) /\ x \in d) => Count(w, x) = 1 THEN {} ELSE {"P_C03_ContractExactlyOnce"})
 
+\* ---------------------------------------------------------------------------- C14: the synthetic events of one directory rename / arrival
+\* (same window discipline as the contract: one operation, drained).  The synthetic events delivered are exactly one
+\* per descendant (SubMoved / SubCreated are built from the harness's own listing of the subtree), parents first.
+C14Clauses(o, w) ==
+    IF ~(cfg.recursive /\ o.k \in {"rename", "movein"} /\ o.kind = "dir") THEN {}
+    ELSE LET want == IF o.k = "rename" THEN SubMoved(o.p, o.q, o.sub) ELSE SubCreated(o.q, o.sub)
+             syn == {w[i] : i \in {j \in 1..Len(w) : w[j].syn}}
+             Path(x) == IF o.k = "rename" THEN x.dst ELSE x.src
+         IN (IF want \subseteq syn THEN {} ELSE {"P_C14_PipelineEveryDescendant"})
+            \cup (IF syn \subseteq want THEN {} ELSE {"P_C14_PipelineOnlyDescendantsRightPaths"})
+            \cup (IF \A x \in want : Count(w, x) <= 1 THEN {} ELSE {"P_C14_PipelineOncePerDescendant"})
+            \cup (IF \A i, j \in 1..Len(w) : (w[i].syn /\ w[j].syn /\ Path(w[j]) # Path(w[i]) /\ Pre(Path(w[j]), Path(w[i]))) => j < i
+                  THEN {} ELSE {"P_C14_PipelineParentBeforeChild"})
+
 \* collapse runs of identical events (C11: "up to coalescing of adjacent identical events")
 RECURSIVE Collapse(_)
 Collapse(s) == IF Len(s) <= 1 THEN s
@@ -262,7 +276,7 @@ Quiescent ==
             \* C03: one operation at a time produces its full contract, nothing missing, nothing added
             \cup (IF cfg.contract /\ Len(winops) = 1
                      /\ winops[1].k \in {"mkdir", "creat", "write", "read", "chmod", "unlink", "rmdir", "rename", "moveout", "movein"}
-                  THEN ContractClauses(winops[1], win) ELSE {})
+                  THEN ContractClauses(winops[1], win) \cup C14Clauses(winops[1], win) ELSE {})
     /\ pendp' = {} /\ win' = << >> /\ winops' = << >>
     /\ UNCHANGED <<cfg, facts, dfacts, gone, s1, s2, rootdel>>
 
